@@ -65,6 +65,10 @@ EXPLANATION += (
     " Round 7: the vote counter's capacity derives from the iteration count (R-CAP/vote-counter, rule of C02)."
 )
 
+EXPLANATION += (
+    ' Round 9: aggregated vote totals kept in a chosen integer type are sized from a sum of the summands (R-CAP/sum-capacity, rule of C02).'
+)
+
 RULE_TEXT = (
     "one obligation per arithmetic relation (quotient, divisor, slice "
     "bound, constant, loop shape); non-trivial when the construct exists")
